@@ -20,6 +20,7 @@ import (
 	"sort"
 	"strconv"
 	"strings"
+	"time"
 
 	"github.com/notaryproject/notation-go/dir"
 	"github.com/notaryproject/notation-go/internal/semver"
@@ -35,6 +36,12 @@ type Script struct {
 	Version string `json:"version"`
 	Valid   bool   `json:"valid"`
 	Interp  bool   `json:"interp"` // the #! line names a private interpreter of the sandbox instead of /bin/sh
+	// Flavour: which concrete output within the class. Valid (mod 4): plain / trailing blank lines /
+	// leading white space / an unknown extra field. Not valid (mod 12): exit 1, not JSON, empty description,
+	// contract 2.0, no capabilities, JSON error on stderr, a valid object followed by a notice line / by a second
+	// object with version 9.0.0 / by a stray brace / by an error object / by a second object on the same line,
+	// 11: hangs.
+	Flavour int `json:"flavour"`
 }
 
 type File struct {
@@ -64,6 +71,9 @@ type Op struct {
 	SrcIn     string  `json:"srcIn"`   // "" or: the directory of the plugin root the source is / lies in
 	ViaLink   bool    `json:"viaLink"` // ... reached through a symbolic link
 	Entries   []Entry `json:"entries"`
+	// Ctx: the context of an Install call: "background" | "deadline" (5 s; only in the slow shapes: plugins that
+	// hang) | "cancelled" (before the call)
+	Ctx string `json:"ctx"`
 }
 
 type Input struct {
@@ -128,6 +138,9 @@ func shq(s string) string { return "'" + strings.ReplaceAll(s, "'", `'\''`) + "'
 // time per process.
 var interpDir string
 
+// hangLine: the body of a plugin that hangs
+const hangLine = "exec sleep 30"
+
 func content(cid int, s *Script) string {
 	if s == nil {
 		return fmt.Sprintf("data cid=%d\n", cid) // no shebang: cannot be executed
@@ -138,22 +151,51 @@ func content(cid int, s *Script) string {
 	}
 	head := fmt.Sprintf("#!%s\n# cid=%d\n", interp, cid)
 	good := metadataJSON(s.Name, s.Version, "d", []string{"1.0"}, []string{"SIGNATURE_GENERATOR.RAW"})
-	if s.Valid {
-		return head + "printf '%s\\n' " + shq(good) + "\n"
+	out := func(parts ...string) string { // each part printed verbatim, one per line
+		b := head
+		for _, p := range parts {
+			b += "printf '%s\\n' " + shq(p) + "\n"
+		}
+		return b
 	}
-	switch cid % 6 {
+	if s.Valid {
+		switch s.Flavour % 4 {
+		case 1:
+			return out(good, "", "  ")
+		case 2:
+			return out("  ", good)
+		case 3:
+			return out(strings.Replace(good, "{", `{"extra":{"x":[1,2]},`, 1))
+		}
+		return out(good)
+	}
+	other := metadataJSON(s.Name, "9.0.0", "d", []string{"1.0"}, []string{"SIGNATURE_GENERATOR.RAW"})
+	switch s.Flavour % 12 {
 	case 0:
 		return head + "exit 1\n"
 	case 1:
 		return head + "echo not json\n"
 	case 2:
-		return head + "printf '%s\\n' " + shq(metadataJSON(s.Name, s.Version, "", []string{"1.0"}, []string{"SIGNATURE_GENERATOR.RAW"})) + "\n"
+		return out(metadataJSON(s.Name, s.Version, "", []string{"1.0"}, []string{"SIGNATURE_GENERATOR.RAW"}))
 	case 3:
-		return head + "printf '%s\\n' " + shq(metadataJSON(s.Name, s.Version, "d", []string{"2.0"}, []string{"SIGNATURE_GENERATOR.RAW"})) + "\n"
+		return out(metadataJSON(s.Name, s.Version, "d", []string{"2.0"}, []string{"SIGNATURE_GENERATOR.RAW"}))
 	case 4:
-		return head + "printf '%s\\n' " + shq(metadataJSON(s.Name, s.Version, "d", []string{"1.0"}, []string{})) + "\n"
-	default:
+		return out(metadataJSON(s.Name, s.Version, "d", []string{"1.0"}, []string{}))
+	case 5:
 		return head + "echo '{\"errorCode\":\"ERROR\",\"errorMessage\":\"refused\"}' >&2\nexit 1\n"
+	// a valid metadata object FOLLOWED by more output: not a response of the protocol
+	case 6:
+		return out(good, "notice: evaluation build, not for production use")
+	case 7:
+		return out(good, other)
+	case 8:
+		return out(good, "}")
+	case 9:
+		return out(good, `{"errorCode":"ERROR","errorMessage":"late failure"}`)
+	case 10:
+		return out(good + other)
+	default: // hangs (the shell is replaced, so killing the process closes its pipes)
+		return head + hangLine + "\n"
 	}
 }
 
@@ -338,7 +380,10 @@ func snapshot(ctx context.Context, m *plugin.CLIManager, root string) ([]PluginO
 				Interp: privateInterp(b) != ""})
 		}
 		// fetch the plugin by the name of its directory and ask it
-		if p, err := m.Get(ctx, de.Name()); err == nil {
+		// (a script this harness wrote to hang is known not to answer: it is not run for the observation -
+		// no timeout here, so that a loaded machine cannot turn a slow answer into "does not answer")
+		exe, _ := os.ReadFile(filepath.Join(root, de.Name(), "notation-"+de.Name()))
+		if p, err := m.Get(ctx, de.Name()); err == nil && !strings.Contains(string(exe), hangLine) {
 			if md, err := p.GetMetadata(ctx, &pf.GetMetadataRequest{}); err == nil && md != nil && md.Name == de.Name() {
 				v := md.Version
 				po.Version = &v
@@ -412,7 +457,16 @@ func runSeq(work string, in Input) (Obs, error) {
 			if err != nil {
 				return obs, err
 			}
-			ex, nw, err := m.Install(ctx, plugin.CLIInstallOptions{PluginPath: path, Overwrite: op.Overwrite})
+			cctx, cancel := ctx, context.CancelFunc(func() {})
+			switch op.Ctx {
+			case "deadline":
+				cctx, cancel = context.WithTimeout(ctx, 5*time.Second)
+			case "cancelled":
+				cctx, cancel = context.WithCancel(ctx)
+				cancel()
+			}
+			ex, nw, err := m.Install(cctx, plugin.CLIInstallOptions{PluginPath: path, Overwrite: op.Overwrite})
+			cancel()
 			if ex != nil {
 				v := ex.Version
 				st.Existing = &v
@@ -540,11 +594,11 @@ func (g *gen) script(name string) *Script {
 	s := &Script{Name: name, Version: g.version(), Valid: true}
 	r := g.c.Rand.Float64()
 	switch {
-	case r < 0.05:
+	case r < 0.09:
 		s.Valid = false
-	case r < 0.10:
-		s.Name = g.pick([]string{"other", "bar", "foo", "Foo", ""}) // misnamed metadata (may coincide)
 	case r < 0.13:
+		s.Name = g.pick([]string{"other", "bar", "foo", "Foo", ""}) // misnamed metadata (may coincide)
+	case r < 0.16:
 		return nil // a data file with a plugin name
 	}
 	return s
@@ -557,6 +611,16 @@ func (g *gen) fileEntry(name string, exe bool, s *Script) Entry {
 		c := *s
 		if g.chance(0.2) {
 			c.Interp = true // its own private interpreter (present unless the world removes it: rminterp)
+		}
+		if c.Flavour == 0 {
+			if c.Valid {
+				c.Flavour = g.c.Rand.Intn(4)
+			} else {
+				c.Flavour = g.c.Rand.Intn(11) // 11 (hangs) only in the fixed slow shapes
+				if c.Flavour >= 6 {
+					g.c.Count("script.invalid.trailing-output")
+				}
+			}
 		}
 		s = &c
 	}
@@ -592,6 +656,11 @@ func (g *gen) simpleInstall(name, version string, overwrite, fromDir bool) Op {
 
 func (g *gen) install() Op {
 	op := g.install0()
+	switch r := g.c.Rand.Float64(); {
+	case r < 0.06:
+		op.Ctx = "cancelled"
+		g.c.Count("install.ctx=cancelled")
+	}
 	if g.chance(0.06) {
 		op.ViaLink = true
 		g.c.Count(fmt.Sprintf("shape.via-link.dir=%v", op.SrcIsDir))
@@ -993,6 +1062,25 @@ func (g *gen) regressionShapes() []Input {
 			}
 		}
 	}
+	// plugin output shapes: a valid metadata object followed by more output is not a response
+	for _, fl := range []int{6, 7, 8, 9, 10} {
+		for _, ow := range []bool{false, true} {
+			// as the NEW plugin (3.0.0 over the installed 2.0.0): refused, 2.0.0 untouched
+			bad := g.simpleInstall("foo", "3.0.0", ow, fl%2 == 0)
+			for i := range bad.Entries {
+				if sc := bad.Entries[i].Script; sc != nil {
+					sc.Valid, sc.Flavour = false, fl
+				}
+			}
+			out = append(out, Input{Kind: "seq", Ops: []Op{g.simpleInstall("foo", "2.0.0", false, false), bad,
+				{Kind: "uninstall", Name: "foo", Entries: []Entry{}}}})
+			// as the INSTALLED plugin (its first object says 1.0.0): malfunctioning, replaced only with overwrite
+			e := g.fileEntry("notation-foo", true, &Script{Name: "foo", Version: "1.0.0", Valid: false, Flavour: fl})
+			e.Script.Flavour = fl
+			out = append(out, Input{Kind: "seq", Ops: []Op{{Kind: "plant", Name: "foo", Entries: []Entry{e}},
+				g.simpleInstall("foo", "2.0.0", ow, fl%2 == 1), {Kind: "uninstall", Name: "foo", Entries: []Entry{}}}})
+		}
+	}
 	// "executable" means the owner execute bit: notation-foo with mode 0654 / 0610 / 0601 / 0655
 	for k := 0; k < 4; k++ {
 		// as a single file: refused, the installed plugin stays (with and without overwrite)
@@ -1006,6 +1094,35 @@ func (g *gen) regressionShapes() []Input {
 		out = append(out, mk(Op{Kind: "install", SrcIsDir: true, SrcBase: "pkg", Entries: []Entry{
 			g.fileEntry("notation-foo", true, s2()), g.goxOnly("notation-bar", nil)}}))
 	}
+	return out
+}
+
+// slowShapes: plugins that hang, under a context with a deadline (each hanging execution costs a second)
+func (g *gen) slowShapes() []Input {
+	var out []Input
+	hang := func() Entry {
+		e := g.fileEntry("notation-foo", true, &Script{Name: "foo", Version: "1.0.0", Valid: false, Flavour: 11})
+		e.Script.Flavour, e.Script.Interp = 11, false
+		return e
+	}
+	dl := func(op Op) Op { op.Ctx = "deadline"; return op }
+	for _, fromDir := range []bool{false, true} {
+		for _, ow := range []bool{false, true} {
+			// the installed plugin hangs and uses up the deadline inside Install: with overwrite the new
+			// version is installed all the same, without it the installation is refused; never "neither"
+			out = append(out, Input{Kind: "seq", RootLink: "none", Ops: []Op{
+				{Kind: "plant", Name: "foo", Entries: []Entry{hang(), g.fileEntry("LICENSE", false, nil)}},
+				dl(g.simpleInstall("foo", "2.0.0", ow, fromDir)), {Kind: "uninstall", Name: "foo", Entries: []Entry{}}}})
+		}
+	}
+	// the NEW plugin hangs: refused when the deadline ends, the installed plugin untouched
+	bad := g.simpleInstall("foo", "3.0.0", true, true)
+	for i := range bad.Entries {
+		if sc := bad.Entries[i].Script; sc != nil {
+			sc.Valid, sc.Flavour, sc.Interp = false, 11, false
+		}
+	}
+	out = append(out, Input{Kind: "seq", RootLink: "self-link", Ops: []Op{g.simpleInstall("foo", "2.0.0", false, false), dl(bad)}})
 	return out
 }
 
@@ -1125,6 +1242,18 @@ func Run(c *common.Ctx) error {
 	}
 	for i := 0; i < nRandom; i++ {
 		seqs = append(seqs, g.sequence())
+	}
+
+	seqs = append(seqs, g.slowShapes()...)
+	for i := range seqs {
+		for k := range seqs[i].Ops {
+			if seqs[i].Ops[k].Ctx == "" {
+				seqs[i].Ops[k].Ctx = "background"
+			}
+		}
+		if seqs[i].RootLink == "" {
+			seqs[i].RootLink = "none"
+		}
 	}
 
 	// --- worker mode: run a share of the sequences and return
